@@ -32,6 +32,7 @@ struct Program {
   std::string text;
   std::vector<ThreadProg> th;
   int wave2_from = -1;
+  int salt = 0;  // selects other fake thread ids with the same probe start (higher hash bits differ)
 } PROG;
 
 Program
@@ -40,6 +41,11 @@ Parse(const std::string &text)
   Program p;
   p.text = text;
   std::string t = text;
+  if (t.rfind("s=", 0) == 0) {
+    auto sc = t.find(';');
+    p.salt = atoi(t.substr(2, sc - 2).c_str());
+    t = t.substr(sc + 1);
+  }
   size_t w = t.find("||");
   std::vector<std::string> parts;
   auto split = [&](const std::string &s) {
@@ -181,6 +187,13 @@ Body(int tid)
   }
   // body returns: the thread begins its exit cleanup
   vs::NoSchedule ns;
+  {
+    const int first_wave = PROG.wave2_from >= 0 ? PROG.wave2_from : static_cast<int>(PROG.th.size());
+    if (tid < first_wave && first_wave <= kCap && vs::Stat(tid).blocked != 0) {
+      vs::Violate("C14", "WAIT-WITH-FREE-ID",
+                  Fmt("T%d had to wait in GetThreadID although only %d thread(s) compete for %d IDs (a free ID always exists)", tid, first_wave, kCap));
+    }
+  }
   if (tid >= PROG.wave2_from && PROG.wave2_from >= 0) {
     // second wave: every id must have been free again, so nobody may have had to wait
     if (vs::Stat(tid).blocked != 0) {
@@ -271,7 +284,7 @@ MakeScenario()
   int per_pos[16] = {0};
   for (int t = 0; t < s.nthreads; ++t) {
     const int pos = PROG.th[t].pos % kCap;
-    s.handles[t] = HandleFor(pos, per_pos[pos]++);
+    s.handles[t] = HandleFor(pos, per_pos[pos]++ + PROG.salt * 5);
   }
   return s;
 }
@@ -323,6 +336,13 @@ Family(const std::string &f)
     gen(2, std::min(kCap, 3), "H G P G", false);
   } else if (f == "over") {  // oversubscribed by one and two
     gen(kCap + 1, kCap + 2, "G H P G", false);
+  } else if (f == "salted") {  // as many threads as IDs, equal probe starts, several fake-id choices
+    for (int salt = 1; salt <= 6; ++salt)
+      for (int pos = 0; pos < kCap; ++pos) {
+        std::vector<int> m(static_cast<size_t>(kCap), pos);
+        out.push_back("s=" + std::to_string(salt) + ";" + wave(m, "G H P G"));
+        if (kCap <= 3) out.push_back("s=" + std::to_string(salt) + ";" + wave({pos}, "G P") + " || " + wave(m, "G H G"));
+      }
   } else if (f == "over1") {
     gen(kCap + 1, kCap + 1, "G H P G", false);
   } else if (f == "reuse1") {  // a small first wave, then a fresh wave of `capacity` threads
